@@ -318,7 +318,7 @@ def main():
     # sanity gates: every primitive family must have been exercised, and every backend this CPU offers
     need = ['H:sha256@default', 'H:sha512', 'H:sha1', 'H:ripemd160', 'H:sha3_256', 'HM:256', 'HM:512', 'HK', 'SIP', 'SIPU', 'SIP13', 'CC', 'FSC', 'P', 'PX', 'AES', 'CBC', 'CBCD', 'AE', 'FSAE'] + [f'H:sha256@m{m}' for m in range(8)] + [f'D:d64@m{m}' for m in range(8)]
     missing = [k for k in need if kinds.get(k, 0) == 0]
-    for s in ('chunkings', 'aead_tampers', 'aead_splits', 'chacha20_chunkings', 'fsaead_packets'):
+    for s in ('chunkings', 'aead_tampers', 'aead_splits', 'chacha20_chunkings', 'fsaead_packets', 'chacha20_setkey_reuse', 'hasher_reset_reuse'):
         if stats.get(s, 0) == 0: missing.append('stat:' + s)
     if len(impl_names) != 8: missing.append('autodetect masks')
     if missing and not run.violations and not incomplete:
@@ -331,7 +331,7 @@ def main():
     rule = ('every length 0..L (quick 300 / thorough 2000 for hashes) x 4 content patterns, one-shot output compared with hashlib/hmac/vendored pure-Python '
             'references and ref_aes.py; every 2-way chunking of every length, every 3-way chunking up to ~130-280 bytes, byte-wise, Reset reuse (C++ side, '
             'counted in cpp_side_checks); SHA-256 via every SHA256AutoDetect mask 0..7 plus direct calls of each SIMD Transform; SHA256D64 for every block count; '
-            'ChaCha20 seek at counter/nonce edges incl. 32-bit counter overflow, every Keystream/Crypt piece mix; Poly1305 edge keys/messages (accumulator p-8..p+8); '
+            'ChaCha20 seek at counter/nonce edges incl. 32-bit counter overflow, every Keystream/Crypt piece mix, object reuse (k = 0..130 bytes produced, then SetKey without Seek / SetKey+Seek; hashers: Write k bytes, Reset, rehash); Poly1305 edge keys/messages (accumulator p-8..p+8); '
             'AES-256 all-equal-byte/one-hot blocks and keys; CBC every length and crafted padding; AEAD every plaintext split, every single-bit tamper of '
             'ciphertext/tag/aad/nonce; FS wrappers across 3+ rekeys. evaluations = reference-checked cases + C++-side equivalence checks; distinct = distinct case descriptors')
     return run.finish(rule=rule, exhaustive=not incomplete)
